@@ -237,6 +237,13 @@ func (g *valGen) str(name string, ascii bool) string {
 			return rapid.StringOfN(rapid.RuneFrom(nil, asciiTable), n, n, -1).Draw(g.t, name)
 		}
 		s := rapid.StringN(0, n, n).Draw(g.t, name) // up to n bytes of valid UTF-8
+		if rapid.IntRange(0, 5).Draw(g.t, name+"RawOctets") == 0 {
+			// a Go string is a sequence of octets: also contents that are not valid UTF-8 (Latin-1 letter, cut
+			// multi-byte sequence, surrogate half, overlong form, 0xfe / 0xff)
+			// (the case is JSON, which cannot carry such octets: they are written as U+E000 followed by two hex
+			// digits and put back by Case.value)
+			s += rapid.SampledFrom([]string{"\ue000fc", "\ue000e2\ue00082", "\ue000ed\ue000a0\ue00080", "\ue000c0\ue000af", "\ue000ff\ue000fe", "a\ue00080b"}).Draw(g.t, name+"Raw")
+		}
 		return s
 	}
 	c := rapid.SampledFrom([]string{"x", "a", "Z", "0"}).Draw(g.t, name+"Fill")
